@@ -111,10 +111,6 @@ theorem getterPureB_sound {c : OpCall} (h : getterPureB c = true) : GetterPure c
     exact ⟨gs, hg, by simpa [List.all_eq_true] using h⟩
   · cases h
 
-/-- Everything the contract says of one call. -/
-def Good (c : OpCall) : Prop :=
-  Lengths c ∧ Positions c ∧ Arity c ∧ Nouts c ∧ Distinct c ∧ GetterPure c
-
 theorem callOkB_sound {c : OpCall} (h : callOkB c = true) : Good c := by
   unfold callOkB at h
   simp only [Bool.and_eq_true] at h
